@@ -31,6 +31,8 @@ enum Call {
     FuncsNc(Vec<&'static str>),
     Symbol(&'static str, i128),
     Symbols(Vec<(&'static str, i128)>),
+    /// a table filled through `Symbols::append` (and one `insert` first), then `with_symbols`
+    SymbolsAppend(Vec<(&'static str, i128)>),
 }
 
 fn alphabet() -> Vec<Call> {
@@ -58,6 +60,7 @@ fn alphabet() -> Vec<Call> {
         Call::Symbols(vec![("s", 14), ("t", 15)]),
         Call::Symbols(vec![("s", 16)]),
         Call::Symbols(vec![("s", 17), ("t", 18), ("u", 19)]),
+        Call::SymbolsAppend(vec![("t", 20), ("s", 21), ("t", 22)]),
     ]
 }
 
@@ -140,7 +143,7 @@ impl Model {
                 self.syms.insert(n.to_string(), *v);
                 Ok(())
             }
-            Call::Symbols(v) => {
+            Call::Symbols(v) | Call::SymbolsAppend(v) => {
                 for (n, x) in v {
                     self.syms.insert(n.to_string(), *x);
                 }
@@ -198,6 +201,14 @@ fn apply_real(b: Builder, c: &Call, next_fn_id: &mut i128) -> Result<Builder, re
             for (n, x) in v {
                 s.insert(*n, Value::Int(*x));
             }
+            b.with_symbols(s)
+        }
+        Call::SymbolsAppend(v) => {
+            let mut s = Symbols::default();
+            if let Some((n, x)) = v.first() {
+                s.insert(*n, Value::Int(*x));
+            }
+            s.append(v.iter().skip(1).map(|(n, x)| (*n, Value::Int(*x))));
             b.with_symbols(s)
         }
     }
